@@ -240,6 +240,7 @@ func pipelineStructure(p *load.Prog, r *oblig.Run, g *cg.Graph, root *ssa.Functi
 	r.Rule("R11.h", "the Left (Right) of every comparison the pipeline builds is an individual of the left (right) list", 4)
 	listSides(p, r, "R11.h", root, concurrentRegion(g, root))
 	winnerSends(p, r, "R11.m")
+	flagLast(p, r, "R11.n")
 	r.Rule("R11.l", "a lookup on a list of individuals that the pipeline uses answers only with individuals of that list", 2)
 	listLookups(p, r, "R11.l", root, concurrentRegion(g, root))
 	stages := []*ssa.Function{p.Func(load.PkgRoot, "createJobs"), p.Method(load.PkgRoot, "IndividualNodesCompareOptions", "processJobs"),
